@@ -396,8 +396,11 @@ def parse_assumptions(out):
             if line.startswith(("File ", "Warning", "Error")):
                 cur = None
             elif line.strip():
-                cur.append(line.strip())
-    return [b if isinstance(b, str) else " ".join(b) for b in blocks]
+                if line[0].isspace() and len(cur) > 1:
+                    cur[-1] += " " + line.strip()       # continuation of the previous axiom's type
+                else:
+                    cur.append(line.strip())
+    return [b if isinstance(b, str) else (b[0] + " " + " ;; ".join(b[1:])) for b in blocks]
 
 
 # --------------------------------------------------------------------------
